@@ -73,7 +73,7 @@ man = {
  "setup_cmd": "./setup.sh",
  "hooks": {
    "guard": "verif",
-   "enable": "no hook is committed to /repo: checks generate instrumented copies of service/ and attachment/ from the current working tree with sim/instr (yields, select/go/map-range rewrites, net->simnet, os->simfs) and pass them to `go test -c -overlay`; build tag 'verif' is reserved and unused",
+   "enable": "no hook is committed to /repo: checks generate instrumented copies of service/ and attachment/ from the current working tree with sim/instr (yields, select/go/map-range rewrites, net->simnet, os->simfs) and pass them to `go test -c -overlay`; the same overlay adds yield hooks to the ReplyBody methods of protocol/model (hook variable nil outside a simulated run); build tag 'verif' is reserved and unused",
    "baseline_off_cmd": "for m in protocol service terminal; do (cd /repo/$m && go test -vet=off -count=1 ./...) || exit 1; done",
    "source_commits": [],
    "add_only": True,
